@@ -34,8 +34,8 @@ func c06() []*Ob {
 		{Prop: "C06", ID: "C06.11", Engine: "SHAPE(accumulation)", Floor: 3,
 			Desc:  "merging partial results adds up: a numeric field that SamplesContainer.Merge updates as own + operand's is a counter; every other store of the operand's value into it is a copy under 'own value is zero' (or, for the counters that are only updated when the operand has samples, under own Total == 0). NotExists is counted for parts without samples too, so a 'destination is empty' fast path that copies it loses the not-exists count of the parts merged before — for some merge orders only",
 			Check: func(c *Ctx) { mergeAccumulates(c) }},
-		{Prop: "C06", ID: "C06.9", Engine: "DOM", Floor: 1,
-			Desc:  "a partial result without samples does not move the extrema: SamplesContainer.Merge reads the operand's Min and Max only when the operand has samples (Total != 0) — the sentinel start values are identities for min/max only inside the sentinel's range, and a container built with zero Min/Max (a part that only counted not-exists documents) drags the group's minimum or maximum to 0 when it is merged last",
+		{Prop: "C06", ID: "C06.9", Engine: "PAIR(two sites)", Floor: 1,
+			Desc:  "a partial result without samples does not move the extrema: SamplesContainer.Merge reads the operand's Min and Max only when the operand has samples (Total != 0), or — if it reads them regardless — every container the repo creates gets both Min and Max assigned at creation (NewSamplesContainers' sentinels) — the sentinel start values are identities for min/max only inside the sentinel's range, and a container built with zero Min/Max (a part that only counted not-exists documents) drags the group's minimum or maximum to 0 when it is merged last",
 			Check: func(c *Ctx) { mergeIgnoresEmptyOperand(c) }},
 		{Prop: "C06", ID: "C06.10", Engine: "PAIR(two sites)", Floor: 1,
 			Desc:  "one question per document and iterator, or a repeatable answer: SourcedNodeIterator.ConsumeTokenSource leaves the underlying node on a hit, or — if it steps on at once — no aggregator is given the same iterator for its two roles. With both relaxed, sum(x) by x asks the shared iterator twice per document and every document counts as lacking the field",
